@@ -53,15 +53,19 @@ def train2 (n : Nat) (K : Nat → Nat → α) (y : Nat → Bool) (Cn Cp : α) (w
   solve (if bias then 1 else 2) eps maxIter (csvmInit2 n K y Cn Cp w bias shrink) 0 0
 
 /-- `CSvmTrainer::optimize`, warm start: the previous coefficients `a1` are clipped to the per-example box; with bias
-the heavier side (positive or negative coefficients) is rescaled so that the start vector sums to zero -- but only if
-clipping changed a coefficient (a start vector that fits the box is left untouched); then `setInitialSolution` -/
+the heavier side (positive or negative coefficients) is rescaled so that the start vector sums to zero -- if clipping
+changed a coefficient or the two sides differ by more than `1e-12` relative (a start vector that fits the box and is
+balanced up to rounding, i.e. a previous solution of the same problem, is left untouched); then `setInitialSolution` -/
 def warmStartVector (s : State α) (a1 : Nat → α) (bias : Bool) : Nat → α :=
   let clipped : Nat → α := fun k => smax (smin (a1 k) (s.U k)) (s.L k)
   if !bias then clipped else
   let sums := (List.range s.n).foldl (fun (acc : α × α) i =>
       if clipped i > (0.0 : α) then (acc.1 + clipped i, acc.2) else (acc.1, acc.2 - clipped i)) ((0.0 : α), (0.0 : α))
   let anyClipped : Bool := (List.range s.n).any fun i => !(clipped i == a1 i)
-  if !anyClipped || sums.1 == sums.2 then clipped else
+  let d := sums.1 - sums.2
+  let ad := if d < (0.0 : α) then -d else d                                 -- std::abs(sumPos - sumNeg)
+  let unbalanced : Bool := decide (ad > (1.0e-12 : α) * (sums.1 + sums.2))
+  if !(anyClipped || unbalanced) || sums.1 == sums.2 then clipped else
   let shrinkPos : Bool := sums.1 > sums.2
   let factor := if shrinkPos then sums.2 / sums.1 else sums.1 / sums.2
   fun k => if (decide (clipped k > (0.0 : α)) == shrinkPos) && !(clipped k == (0.0 : α)) then clipped k * factor else clipped k
